@@ -808,6 +808,106 @@ impl<'a> Exec<'a> {
         Ok(())
     }
 
+    /// C02: two token sequences with equal concatenated bytes are both accepted (or both rejected)
+    /// and leave the engine with the same allowed continuations. The handle's byte history is
+    /// re-cut into a random valid segmentation of the same vocabulary and fed to a fresh engine.
+    pub fn chk_resplit(&mut self, h: SlotId, seed: u64) -> VResult<()> {
+        if self.live_matcher(h).is_none() {
+            return self.skip("dead");
+        }
+        if self.ctx.tokref || self.ctx.world.spec.canonical {
+            return self.skip("n/a");
+        }
+        let nv = self.ctx.n_vocab();
+        let eos = self.ctx.world.eos();
+        let hist = self.slots[&h].hist.clone();
+        if hist.contains(&eos) {
+            return self.skip("eos_in_history");
+        }
+        let bytes = match self.hist_bytes(&hist) {
+            Some(b) => b,
+            None => return self.skip("special_in_history"),
+        };
+        if bytes.is_empty() {
+            return self.skip("empty");
+        }
+        let alt = self.slots[&h].alt;
+        let mut rng = Rng::new(seed);
+        // random segmentation: at each position any vocabulary token that is a prefix of the rest
+        let mut toks: Vec<TokenId> = vec![];
+        let mut pos = 0;
+        while pos < bytes.len() {
+            let mut cands: Vec<TokenId> = vec![];
+            for t in 0..nv as u32 {
+                if self.ctx.is_special(t) {
+                    continue;
+                }
+                let w = self.ctx.tok_bytes(t);
+                if !w.contains(&0xff) && bytes[pos..].starts_with(w) {
+                    cands.push(t);
+                }
+            }
+            if cands.is_empty() {
+                return self.skip("byte_not_in_vocab");
+            }
+            let t = match rng.below(3) {
+                0 => *cands.iter().max_by_key(|t| self.ctx.tok_bytes(**t).len()).unwrap(),
+                1 => *cands.iter().min_by_key(|t| self.ctx.tok_bytes(**t).len()).unwrap(),
+                _ => *rng.pick(&cands),
+            };
+            pos += self.ctx.tok_bytes(t).len();
+            toks.push(t);
+        }
+        if toks == hist {
+            return self.skip("same_split");
+        }
+        self.stats.checks += 1;
+        self.stats.probe("resplit_compared");
+        let mut r = MH::R(self.fresh_matcher(alt));
+        // fed one token at a time (each must be accepted: the bytes are the same)
+        for (i, t) in toks.iter().enumerate() {
+            if let Err(e) = r.consume_tokens(&[*t]) {
+                let cls = classify_err(&e.to_string());
+                if cls == ErrClass::Limit {
+                    return self.skip("limit");
+                }
+                return Err(self.viol(
+                    "split_invariance",
+                    "resplit_rejected",
+                    format!(
+                        "h{h} accepted {:?} (tokens {:?}) but the split {:?} of the same bytes is rejected at token #{i}: {}",
+                        String::from_utf8_lossy(&bytes),
+                        hist,
+                        toks,
+                        short(&e.to_string())
+                    ),
+                ));
+            }
+        }
+        let oh = observe(self.mh(h), nv);
+        let or = observe(&mut r, nv);
+        if !self.fault_free() && (oh.mask.is_none() || or.mask.is_none()) {
+            return self.skip("fault");
+        }
+        if let Some((field, d)) = obs_diff(&oh, &or, "handle", "resplit", !self.fault_free()) {
+            if self.limit_error_latched(h) {
+                return self.skip("limit_error_in_flight");
+            }
+            return Err(self.viol(
+                "split_invariance",
+                &format!("resplit_differs:{field}"),
+                format!(
+                    "bytes {:?}: split {:?} vs split {:?}: {d}",
+                    String::from_utf8_lossy(&bytes),
+                    hist,
+                    toks
+                ),
+            ));
+        }
+        self.ev(format!("chk_resplit h{h} n={}", toks.len()));
+        Ok(())
+    }
+
     // ------------------------------------------------------------- C03
 
     pub fn chk_dead(&mut self, h: SlotId, depth: usize, nodes: usize) -> VResult<()> {
